@@ -81,12 +81,14 @@ PROPS = {
                  "differ, witness C05_offender_may_differ), C05_days_equiv; Properties/C05Inserts.lean: C05_inserts_perm (unvalued pipeline, closing on or off: the report inserts of two day-equivalent journals are "
                  "permutations of each other; equality fails, kernel-checked witness), C05_run_ok_perm, C05_report_perm and C05_balance_output_perm (for every permutation of the directives of a journal with well-formed "
                  "accounts BalanceCmd.run f ds = BalanceCmd.run f ds' — period, partition, closing days, pipeline, table, text or CSV bytes, failure included). Properties/C05Valued.lean: the same for VALUED reports (C05_inserts_perm_valued, C05_run_ok_perm_valued, C05_report_perm_valued, C05_balance_output_perm_valued: any flags incl. --val, adjustment order and missing-price failures included), for journals without two price directives for one commodity pair on one date (PricesDistinct; needed: kernel-checked witness C05_two_prices_one_day_order_matters). "
+                 "END TO END (Properties/C05Layout.lean, Spec/LayoutSpec.lean): Layout.journalOf fs root = the directives the commands work on (recursive include loader on the file system fs, model.FromStream per file incl. accrual expansion, concatenated in the loader's order; Commands.fromPath is this function). C05_run_factors: Cmd.run c fs f = onJournal c f (journalOf fs f.path) for check, balance, print. For two file systems/roots whose journals are permutations of each other: C05_layout_verdict (same check outcome class, same outcome without --write), C05_layout_balance / C05_layout_balance_valued (Cmd.run .balance gives the same CmdOutcome - stdout bytes, error, panic - for every flag vector; valued under PricesDistinct), C05_layout_print (both print runs rejected, or both print journals that are Layout.PrintEquiv: same days, per day the same directives per kind as multisets, same column width, sorted transaction sequences equal position by position up to transaction.Compare; C05_compare_equal_prints_alike: such transactions print alike up to the @performance line), C05_layout_print_exact (same relative order within every (date, kind) block => identical bytes), C05_layout_arrival (any arrival order of the loaded files gives a permutation), C05_layout_wf (every loaded journal satisfies DirsWF: no well-formedness hypothesis is left). Constructive side C05_split / C05_split_fs / C05_split_reports: ANY distribution of the directives of ds over the files of ANY include tree (LTree: path, items = directive or include of a child under some spelling), written with the functions of journal.Print and include lines, is loaded back - from every file system holding these files - as a permutation of ds (explicitly: file by file, depth first), for printable directives (C09 PrintableDir), include spellings that resolve (path.Join(filepath.Dir(includer), spelling)) to the child's path, pairwise different cleaned paths; two such layouts give the same verdict, balance bytes and print-equivalent journals. Kernel-checked closed instance: three files in two directories against one file in reverse order. Open: the assertions check --write prints (class only). "
                  "Decided on every run as well: each journal is written in several directive orders and include-tree "
                  "layouts (1-5 files, depth <= 3, ./ and ../ paths, sub-directories), loaded by the REAL concurrent loader under different schedule-perturbation seeds (-tags verif), and check "
                  "verdict, balance output (byte for byte) and print output (same directives per date, identical transaction sequence) are compared across all variants and with the model run on the "
-                 "permuted list.",
-        "note": "Trusted: Lean kernel; axioms propext, Classical.choice, Quot.sound; path.Join/filepath.Dir semantics of include resolution are exercised, not modelled; goroutine arrival order is "
-                "sampled through schedule perturbation (its protocol-level treatment is C19).",
+                 "permuted list; and for EVERY variant the days the real loader (journal.FromPath, in-process) builds from the tree are compared, up to the order within a (day, kind) block, with the days built from the model's "
+                 "journalOf on the tree read back from disk (driver op c05journal).",
+        "note": "Trusted: Lean kernel; axioms propext, Classical.choice, Quot.sound; path.Join/filepath.Dir/path.Clean of include resolution are modelled (Loader.resolve, tied by C14's paths stream and by the journal-of comparison here); goroutine arrival order is "
+                "sampled through schedule perturbation (its protocol-level treatment is C19; C05_layout_arrival covers every arrival order of the files).",
         "rule": "150 (quick) / 4000 (thorough) journals x 5-10 variants; variant 0 = original order in one file; others = random permutation distributed over a random include tree; a fifth of "
                 "the journals carry a lifecycle mutation so that rejecting verdicts are compared too. class = (verdict, flag signature, number of tree shapes, size).",
         "assumptions": ["journals with two prices for one commodity pair on one day are not generated (excluded by the property)"],
